@@ -122,3 +122,15 @@ class _CountingMeta(type):
 
 class FalsyCls(metaclass=_CountingMeta):
     pass
+
+
+import typing as _typing
+
+
+class AnyProxy(_typing.Any):
+    """A class deriving from typing.Any (allowed since Python 3.11: proxies, mocks) - a class like any other to MonkeyType."""
+
+
+class AnyHolder:
+    class Lazy(_typing.Any):
+        pass
